@@ -28,12 +28,20 @@ FIELD_PATTERNS = [
     ('rename,skip_serializing_if', '#[serde(rename = "HOLE_s", skip_serializing_if = "Option::is_none")]', True, False, 'printable'),
     ('skip,default', '#[serde(skip, default)]', False, True, None),
     ('rename|skip_serializing_if', '#[serde(rename = "HOLE_s")]\n    #[serde(skip_serializing_if = "Option::is_none")]', True, False, 'printable'),
+    # an item carrying a value *in front of* the item that matters (a walker that stops at the first item it does not model loses the rest)
+    ('skip_serializing_if,rename', '#[serde(skip_serializing_if = "Option::is_none", rename = "HOLE_s")]', True, False, 'printable'),
+    ('default=path,skip', '#[serde(default = "make_default", skip)]', False, True, None),
+    ('alias,rename', '#[serde(alias = "old_name", rename = "HOLE_s")]', True, False, 'printable'),
+    ('alias,alias,skip', '#[serde(alias = "a", alias = "b", skip)]', False, True, None),
 ]
 VARIANT_PATTERNS = [
     ('none', '', False, False, None),
     ('rename', '#[serde(rename = "HOLE_s")]', True, False, 'printable'),
     ('alias', '#[serde(alias = "HOLE_s")]', False, False, 'printable'),
     ('skip', '#[serde(skip)]', False, True, None),
+    ('alias,rename', '#[serde(alias = "Old", rename = "HOLE_s")]', True, False, 'printable'),
+    ('rename,alias', '#[serde(rename = "HOLE_s", alias = "Old")]', True, False, 'printable'),
+    ('alias,skip', '#[serde(alias = "Old", skip)]', False, True, None),
 ]
 
 
@@ -76,15 +84,19 @@ class C06(C.PipelineCheck):
         for ra in RULES:
             full = (not q) or ra in (None, 'camelCase')
             for pat in FIELD_PATTERNS:
-                if not full and pat[0] not in ('none', 'rename', 'skip', 'alias'):
+                if not full and pat[0] not in ('none', 'rename', 'skip', 'alias', 'skip_serializing_if,rename', 'default=path,skip'):
                     continue
                 # attribute values that are function paths need 4 characters to spell `skip`
                 sl = slens if pat[4] != PATH_ALPHA else ((4,) if q else (1, 4, 6))
                 yield ('field/%s/%s' % (ra, pat[0]), dict(kind='field', ra=ra, pat=pat, lens=lens if pat[0] in ('none', 'rename') else lens[:1],
                                                           slens=sl if pat[4] else (0,)))
             for pat in VARIANT_PATTERNS:
-                yield ('variant/%s/%s' % (ra, pat[0]), dict(kind='variant', ra=ra, pat=pat, lens=(1, 2, 4) if pat[0] == 'none' and q else lens,
-                                                            slens=slens if pat[4] else (0,)))
+                vl = (1, 2, 4) if pat[0] == 'none' and q else lens
+                vs = slens if pat[4] else (0,)
+                if 'alias' in pat[0] and not q:
+                    # the alias text never reaches the output: a long symbolic alias only multiplies token-printing paths
+                    vl, vs = (1, 2, 4), tuple(x for x in vs if x <= 2)
+                yield ('variant/%s/%s' % (ra, pat[0]), dict(kind='variant', ra=ra, pat=pat, lens=vl, slens=vs))
 
     def mutant_scenarios(self, tier, name):
         for j in self.scenarios('quick'):
